@@ -302,7 +302,71 @@ func genCase(r *Rng, pl Plan, maxn int) PCase {
 			refElem(r, &c, i)
 		}
 	}
+	// matrix operands are SLICE views (optionally transposed) of larger parents: 1 case in 3 that has a matrix operand
+	viewify(r, &c)
 	return c
+}
+
+// viewify: turn the matrix receiver / operands of a case into views.  Half of the time all parents have ONE common
+// shape (the views then differ only in their row / column offsets and in the transposition flag): a member that
+// walks the backing arrays directly instead of through index(i, j) agrees with its twin on such operands unless
+// the offsets are taken into account.  Element references (Elem) are left alone: their positions name the object.
+func viewify(r *Rng, c *PCase) {
+	for _, e := range c.Elem {
+		if e >= 0 {
+			return
+		}
+	}
+	var objs []*OSpec
+	if c.Recv.K == "dmat" || c.Recv.K == "smat" {
+		objs = append(objs, &c.Recv)
+	}
+	for i := range c.Args {
+		if (c.Args[i].K == "dmat" || c.Args[i].K == "smat") && c.Alias[i] < 0 {
+			objs = append(objs, &c.Args[i])
+		}
+	}
+	if len(objs) == 0 || r.Intn(3) > 0 {
+		return
+	}
+	common := r.Intn(2) == 0
+	allT := r.Intn(3) // 0: none transposed, 1: all transposed, 2: each at random
+	// common parent shape: large enough for every view in either orientation
+	cr, cc := 0, 0
+	for _, o := range objs {
+		for _, d := range []int{o.Rows, o.Cols} {
+			if d > cr {
+				cr = d
+			}
+			if d > cc {
+				cc = d
+			}
+		}
+	}
+	cr += 1 + r.Intn(2)
+	cc += 1 + r.Intn(2)
+	order, n := 0, 0
+	if isReal(c.Type) && len(c.Recv.E) > 0 {
+		order, n = c.Recv.E[0].O, c.Recv.E[0].N
+	}
+	for _, o := range objs {
+		if !common && r.Intn(4) == 0 {
+			continue // this operand stays a matrix of its own
+		}
+		// sparse T() builds a new matrix (and panics on a slice with entries outside it): sparse views are slices only
+		t := o.K == "dmat" && (allT == 1 || (allT == 2 && r.Intn(2) == 0))
+		sr, sc := o.Rows, o.Cols
+		if t {
+			sr, sc = sc, sr
+		}
+		pr, pc := cr, cc
+		if !common {
+			pr, pc = sr+r.Intn(3), sc+r.Intn(3)
+		}
+		v := &VSpec{PR: pr, PC: pc, RO: r.Intn(pr - sr + 1), CO: r.Intn(pc - sc + 1), T: t}
+		p := genObj(r, c.Type, o.K, pr, pc, order, n)
+		o.E, o.View = p.E, v
+	}
 }
 func sameShape(a, b OSpec) bool { return a.Rows == b.Rows && a.Cols == b.Cols }
 func isContainer(k string) bool { return k == "dvec" || k == "svec" || k == "dmat" || k == "smat" }
